@@ -41,9 +41,21 @@ SCRIPTS = {
 }
 
 
+def chain(depth, opts=1):
+    """a chain of nested directives `depth` levels deep, each with options, a paragraph and (innermost) a field and a list"""
+    node = [TXT2, ("field",), ("bullets", 2)]
+    for d in range(depth):
+        node = [("dir", opts, d % 2 == 1, [TXT1] + node)]
+    return node
+
+
 def build(tier):
     quick = tier == "quick"
     obs = []
+    # deep nesting (sizes beyond the small scripts, still one symbolic character per piece)
+    for depth in ((12,) if quick else (12, 40)):
+        obs.append(ob(f"chain-depth-{depth}", chain(depth), 1, 2, timeout=300 if quick else 1800))
+    obs.append(ob("wide", [("dir", 0, False, [TXT1] * 1)] * (12 if quick else 40) + [("bullets", 12 if quick else 40), ("enum", 12 if quick else 40)], 1, 2, timeout=300 if quick else 1800))
     for name, sc in SCRIPTS.items():
         obs.append(ob(name, sc, 2 if quick else 3, 3 if quick else 5, timeout=300 if quick else 1800))
     # histories: the document is serialised (to_text and str) after every construction step; later serialisations are unaffected
